@@ -466,3 +466,26 @@ Definition identity_f (e : expr) : option expr :=
   | _ => None
   end.
 Definition rw_identity : expr -> expr := td identity_f.
+
+(** * str_concat_in_seq_literal.py: inside list / tuple / set displays an implicitly concatenated string becomes one element
+    per literal ([EJuxt n "s"] stands for 2+n adjacent copies of the literal "s") *)
+Definition flatten_element (a : expr) : list expr :=
+  match a with
+  | EJuxt n (EConst (CStr s)) => N.iter n (fun l => EConst (CStr s) :: l) [EConst (CStr s); EConst (CStr s)]
+  | _ => [a]
+  end.
+Definition flatten_elements (es : list expr) : list expr := flat_map flatten_element es.
+Definition str_concat_step (e : expr) : expr :=
+  match e with
+  | EList es => EList (flatten_elements es)
+  | ETuple es => ETuple (flatten_elements es)
+  | ESet es => ESet (flatten_elements es)
+  | _ => e
+  end.
+Definition str_concat_f (e : expr) : option expr :=
+  match e with
+  | EList _ | ETuple _ | ESet _ => Some (str_concat_step e)      (* pinned: the elements of the ORIGINAL node *)
+  | _ => None
+  end.
+Definition rw_str_concat (cfg : str_concat_cfg) : expr -> expr :=
+  if sc_updated cfg then bu str_concat_step else td str_concat_f.
